@@ -13,6 +13,7 @@ import os
 import time
 from typing import Any, Callable, Dict, Iterable, Iterator, List, Optional, Sequence, Tuple
 
+from .wire import Reject
 from .world import HarnessError
 
 NPROC = max(1, min(16, os.cpu_count() or 1))
@@ -113,6 +114,15 @@ def pmap_iter(fn: Callable[[Any], Any], items: Iterable[Any], chunk: int = 256, 
         _TASK = None
 
 
+def malformed_output(where: str, exc: Exception) -> Dict[str, Any]:
+    """The oracles read the network trace through the independent decoder.  Every datagram the harness itself injects is
+    well-formed, so a `wire.Reject` that escapes from an execution means that the instance under test transmitted a datagram
+    an RFC 1035 decoder cannot parse - which no property about 'the datagrams sent' can survive.  It is reported as a
+    violation of the property being checked instead of crashing the explorer."""
+    return {"what": f"{where}: the instance transmitted a datagram that the independent RFC 1035 decoder rejects ({exc})",
+            "replay": {"problems": [f"malformed-output: {exc}"]}, "signature": {"check": "malformed-output"}}
+
+
 # --------------------------------------------------------------------------------------------------
 # Result bookkeeping
 # --------------------------------------------------------------------------------------------------
@@ -197,7 +207,10 @@ def explore_deviations(run: RunFn, bound: int, stats: Stats, scenario: str, max_
     def task(prefix_expect: Tuple[List[int], Optional[List[Tuple[int, str]]]]) -> Tuple[Any, ...]:
         prefix, expect = prefix_expect
         ch = Chooser(prefix, expect)
-        verdict, obs, trans = run(ch)
+        try:
+            verdict, obs, trans = run(ch)
+        except Reject as exc:
+            return (malformed_output(scenario, exc), "malformed-output", 1, [(n, l) for n, l, _ in ch.log], ch.choices())
         if verdict is not None:
             # re-run once: a verdict that does not reproduce is a harness problem, not a violation
             ch2 = Chooser(ch.choices(), [(n, l) for n, l, _ in ch.log])
@@ -243,7 +256,13 @@ def explore_deviations(run: RunFn, bound: int, stats: Stats, scenario: str, max_
 def explore_product(run_point: Callable[[Any], Tuple[Optional[Dict[str, Any]], str, int]], points: Sequence[Any],
                     stats: Stats, scenario: str) -> None:
     """Full Cartesian grid: run every point; `points` items must be JSON-serialisable."""
-    results = pmap(run_point, points)
+    def guarded_point(p: Any) -> Tuple[Optional[Dict[str, Any]], str, int]:
+        try:
+            return run_point(p)
+        except Reject as exc:
+            return malformed_output(f"{scenario} {p}", exc), "malformed-output", 1
+
+    results = pmap(guarded_point, points)
     for p, (verdict, obs, trans) in zip(points, results):
         stats.executions += 1
         stats.transitions += trans
@@ -274,10 +293,16 @@ def bfs_histories(step: StepFn, alphabet: Sequence[Any], depth: int, stats: Stat
     prefixes were checked when they were the frontier) and returns the canonical form of the state.
     Returns {level: set of canonical digests} for the abstraction self-check.
     """
+    def guarded_step(h: Tuple[Any, ...]) -> Tuple[Optional[Dict[str, Any]], Any, int]:
+        try:
+            return step(h)
+        except Reject as exc:
+            return malformed_output(f"{scenario} after {list(h)}", exc), ("malformed-output", h), len(h)
+
     seen: set = set()
     per_level: Dict[int, set] = {}
     frontier: List[Tuple[Any, ...]] = [()]
-    root = step(())
+    root = guarded_step(())
     if root[0] is not None:
         stats.violations.append(Violation(root[0]["what"], dict(root[0].get("replay", {}), scenario=scenario,
                                                                 history=[]), root[0].get("signature")))
@@ -294,7 +319,7 @@ def bfs_histories(step: StepFn, alphabet: Sequence[Any], depth: int, stats: Stat
         cands = [h + (ev,) for h in frontier for ev in alphabet if enabled is None or enabled(h, ev)]
         if not cands:
             break
-        results = pmap(step, cands)
+        results = pmap(guarded_step, cands)
         nxt: List[Tuple[Any, ...]] = []
         lvl_set: set = set()
         viol_here = 0
